@@ -4,17 +4,18 @@
 (* raw and chroma.  Invariants (C18): E_tot = E_sub + E_miss + E_fa, every error >= 0, accuracy   *)
 (* <= min(precision, recall), per frame TP <= min(#ref, #est) and chroma TP >= raw TP.            *)
 EXTENDS Multipitch, TLC, Json
-CONSTANTS Pitches, NF, NP, W, Modes
-VARIABLES rfr, efr, w, mode, out, pc
-vars == <<rfr, efr, w, mode, out, pc>>
+CONSTANTS Pitches, NF, NP, W, Modes, Origins
+VARIABLES rfr, efr, w, mode, org, out, pc
+vars == <<rfr, efr, w, mode, org, out, pc>>
 Frame == SortedSeqs(Pitches, NP)
 Init == /\ rfr \in UNION {[1..k -> Frame] : k \in 1..NF} /\ efr \in UNION {[1..k -> Frame] : k \in 1..NF}
         /\ w \in W /\ mode \in Modes /\ (mode = "same" => Len(efr) = Len(rfr))
+        /\ org \in Origins /\ (mode = "same" => org = 0)      \* both time bases start at org (far from 0: closeness of time bases is absolute)
         /\ out = <<>> /\ pc = "in"
-RTimes == [i \in 1..Len(rfr) |-> 4 * (i - 1)]
-ETimes == IF mode = "same" THEN RTimes ELSE [i \in 1..Len(efr) |-> 4 * (i - 1) + (IF mode = "late" THEN 1 ELSE 3)]
+RTimes == [i \in 1..Len(rfr) |-> org + 4 * (i - 1)]
+ETimes == IF mode = "same" THEN RTimes ELSE [i \in 1..Len(efr) |-> org + 4 * (i - 1) + (IF mode = "late" THEN 1 ELSE 3)]
 EAligned == IF mode = "same" THEN efr ELSE Resample(RTimes, ETimes, efr)
-Solve == /\ pc = "in" /\ pc' = "out" /\ UNCHANGED <<rfr, efr, w, mode>>
+Solve == /\ pc = "in" /\ pc' = "out" /\ UNCHANGED <<rfr, efr, w, mode, org>>
          /\ out' = [rt |-> RTimes, et |-> ETimes, aligned |-> EAligned,
                     raw |-> Scores(rfr, EAligned, w, FALSE), chroma |-> Scores(rfr, EAligned, w, TRUE)]
 Next == Solve
@@ -30,5 +31,5 @@ Identities == pc = "out" =>
                             /\ out.chroma.tp[i] >= out.raw.tp[i]
                             /\ out.chroma.tp[i] <= MinI(Len(rfr[i]), Len(out.aligned[i]))
 NoTies == pc = "out" /\ mode # "same" => NoTie(RTimes, ETimes)
-Export == pc = "out" => PrintT("ROW" \o ToJson([rfr |-> rfr, efr |-> efr, w |-> w, mode |-> mode, out |-> out]))
+Export == pc = "out" => PrintT("ROW" \o ToJson([rfr |-> rfr, efr |-> efr, w |-> w, mode |-> mode, org |-> org, out |-> out]))
 =============================================================================
